@@ -239,7 +239,8 @@ def ac2mp_poly(
     ).T
     # correct for exponential window
     if methodSy == "cor":
-        tau = -(nxseg - 1) / np.log(0.01)
+        # time constant of the exponential window, in seconds (the window length is in samples)
+        tau = -(nxseg - 1) / np.log(0.01) * dt
         lam_c = lam_c - 1 / tau
     fn = abs(lam_c) / (2 * np.pi)  # natural frequencies
     xi = -((np.real(lam_c)) / (abs(lam_c)))  # damping ratios
